@@ -16,7 +16,9 @@ import (
 	"reflect"
 	"strings"
 
+	codectypes "github.com/cosmos/cosmos-sdk/codec/types"
 	sdk "github.com/cosmos/cosmos-sdk/types"
+	govv1beta1 "github.com/cosmos/cosmos-sdk/x/gov/types/v1beta1"
 	"github.com/cosmos/gogoproto/proto"
 
 	"fxverif/lib"
@@ -180,6 +182,49 @@ func (h *harness) stageHandlers() {
 						}
 					}
 				}
+			}
+		}
+	}
+	// legacy gov Content types: wrapped into the SDK's v1beta1 MsgSubmitProposal (any funded account may send one);
+	// its handler calls content.ValidateBasic() and then looks for a route
+	for _, curl := range h.reg.ListImplementations("cosmos.gov.v1beta1.Content") {
+		if !strings.HasPrefix(curl, "/fx.") {
+			continue
+		}
+		for _, chain := range []string{"eth", "tron"} {
+			b := h.explicitBaseOn(curl, chain)
+			if b == nil {
+				continue
+			}
+			cbz, ok := marshalGuard(b)
+			if !ok {
+				continue
+			}
+			wrap := func(content []byte, how string) {
+				m := &govv1beta1.MsgSubmitProposal{Content: &codectypes.Any{TypeUrl: curl, Value: content}, InitialDeposit: sdk.NewCoins(lib.FX(1)), Proposer: h.p.accOK[0]}
+				bz, ok := marshalGuard(m)
+				if !ok {
+					return
+				}
+				h.runHandler("/cosmos.gov.v1beta1.MsgSubmitProposal", bz, how+" inside MsgSubmitProposal")
+				n++
+			}
+			tname := curl[strings.LastIndex(curl, ".")+1:]
+			wrap(cbz, "valid "+tname+" ("+chain+")")
+			for _, path := range wirePaths(cbz, 3) {
+				for _, txt := range hostileTexts {
+					if mbz, ok := applyWire(cbz, wireOp{Path: path, Op: "set", Set: []byte(txt)}); ok {
+						wrap(mbz, fmt.Sprintf("%s field %v set to %q", tname, path, txt))
+					}
+				}
+				for _, op := range []string{"drop", "empty", "dup"} {
+					if mbz, ok := applyWire(cbz, wireOp{Path: path, Op: op}); ok {
+						wrap(mbz, fmt.Sprintf("%s %s field %v", tname, op, path))
+					}
+				}
+			}
+			if !strings.Contains(curl, "crosschain") {
+				break
 			}
 		}
 	}
